@@ -63,7 +63,7 @@ fn field_of(letter: char) -> &'static str {
 /// set the key field of a row to value class `class` (0 blank, 1 lo, 2 mid, 3 mid (tie), 4 same-integer, 5 hi)
 fn set_field(s: &mut Snap, field: &str, class: usize) {
     match field {
-        "squawk" => s.squawk = [None, Some(1000), Some(4521), Some(4521), Some(4522), Some(7777)][class],
+        "squawk" => s.squawk = [None, Some(1000), Some(4521), Some(4521), Some(7600), Some(7700)][class],
         "altitude" => s.altitude = [None, Some(0), Some(12000), Some(12000), Some(12025), Some(40000)][class],
         "vrate" => s.vrate = [None, Some(-1920), Some(64), Some(64), Some(128), Some(3000)][class],
         "lat" => {
@@ -152,6 +152,12 @@ fn build_table(ostr: &str, n: usize, combo: usize) -> Vec<Snap> {
         }
     }
     let f = last.map(field_of).unwrap_or("squawk");
+    // special squawks in rows that are not first by any key: nothing but the requested key may decide the order
+    if f != "squawk" && !letters.contains(&'s') {
+        for (ri, r) in rows.iter_mut().enumerate() {
+            r.squawk = [Some(1200), Some(7700), Some(7500), None, Some(7600)][ri % 5];
+        }
+    }
     let mut c = combo;
     for r in rows.iter_mut() {
         set_field(r, f, c % 6);
